@@ -251,4 +251,45 @@ def resimulate (s : Spec) (Y X : OMat) (e : Estimate) : Option QMat :=
   some (simulate s (coefA s e.beta) (coefB s e.beta) c (X.fill 0) E path0
     ((List.range (numBase s Y)).map (· + s.p)))
 
+/-! ### the public wrappers: what `estimate(target_db=…)` returns, and an estimated variant as an object with a memo -/
+
+/-- a databox as an insertion-ordered finite map -/
+abbrev DB (α : Type) := List (String × α)
+
+def dbLookup {α : Type} (db : DB α) (k : String) : Option α := (db.find? (fun p => p.1 == k)).map (·.2)
+def dbHas {α : Type} (db : DB α) (k : String) : Bool := db.any (fun p => p.1 == k)
+
+/-- `left | right` of `Databox` (a `dict`): the keys of `left` keep their places and take the value of `right` when `right`
+has the key; the keys only `right` has follow in `right`'s order -/
+def dbUnion {α : Type} (left right : DB α) : DB α :=
+  left.map (fun p => (p.1, (dbLookup right p.1).getD p.2)) ++ right.filter (fun p => !dbHas left p.1)
+
+/-- `estimate(..., target_db=t)` returns `t | output` (`output` = the databox made from the estimation dataslate: the data
+it was given plus the residual series); without a target it returns `output` -/
+def estimateReturn {α : Type} (target : Option (DB α)) (output : DB α) : DB α :=
+  match target with
+  | none => output
+  | some t => dbUnion t output
+
+/-- the memo of a `Variant`: the companion matrix is built at the first request and kept (`_companion_T`); the
+`Solution` handed out is assembled afresh at every request from the memo, `P` and the constant of the requested mode -/
+structure VMemo where
+  companionT : Option QMat := none
+  deriving Repr
+
+/-- `_get_companion_solution(deviation)`: new memo and the reported `(T, K)` -/
+def requestCompanion (s : Spec) (A : QMat) (c : Option QVec) (st : VMemo) (deviation : Bool) : VMemo × (QMat × QVec) :=
+  let T := match st.companionT with
+    | some T => T
+    | none => companionT s A
+  (⟨some T⟩, (T, companionK s (if deviation then none else c)))
+
+/-- a history of requests on one variant -/
+def runRequests (s : Spec) (A : QMat) (c : Option QVec) : VMemo → List Bool → VMemo × List (QMat × QVec)
+  | st, [] => (st, [])
+  | st, d :: ds =>
+    let (st1, o) := requestCompanion s A c st d
+    let (st2, os) := runRequests s A c st1 ds
+    (st2, o :: os)
+
 end IrisVerif.RedVar
